@@ -545,7 +545,7 @@ Proof.
   - simpl in Hok. cbn [render]. unfold nested_render_text.
     set (s0 := set_cur (set_nc s (S (nc s))) (Cont (nc s))).
     set (s2 := match (if mt then Some (Cont (nc s)) else None) with
-               | Some r => set_troot (set_hoff s0 0) (Some r) | None => set_hoff s0 0 end).
+               | Some r => set_troot (set_hoff s0 (hoff s0 + 0)) (Some r) | None => set_hoff s0 (hoff s0 + 0) end).
     assert (Hwf2 : wf s2).
     { destruct Hwf as [H1 H2]. subst s2 s0. destruct mt; split; cbn; auto.
       - intros r Hr. cbn in Hr. inversion Hr; subst. exists (nc s). split; auto.
@@ -559,7 +559,7 @@ Proof.
       * intros r Hr. cbn in Hr. apply B in Hr. exact Hr.
     + destruct mt; cbn; lia.
   - simpl in Hok. cbn [render]. unfold nested_render_text.
-    assert (Hwf2 : wf (set_hoff s off)) by (destruct Hwf; split; auto).
+    assert (Hwf2 : wf (set_hoff s (hoff s + off))) by (destruct Hwf; split; auto).
     destruct (mfold_wf ts IH Hok _ Hwf2) as (s3 & H3 & Hwf3 & Hle). rewrite H3. cbn [bind].
     eexists. split; [reflexivity|]. destruct Hwf3 as [A B]. split; [split|]; cbn in *; auto.
 Qed.
@@ -645,18 +645,20 @@ Proof.
     unfold frame. cbn. repeat split; auto; lia.
   - cbn [no_titles] in Hok. apply andb_true_iff in Hok as [Hmt Hok]. destruct mt; [discriminate|].
     cbn [render]. unfold nested_render_text.
-    set (s2 := set_hoff (set_cur (set_nc s (S (nc s))) (Cont (nc s))) 0).
+    set (s0 := set_cur (set_nc s (S (nc s))) (Cont (nc s))).
+    set (s2 := set_hoff s0 (hoff s0 + 0)).
+    assert (Hoff2 : hoff s2 = hoff s) by (subst s2 s0; cbn; lia).
     assert (Hctx2 : nested_ctx s2).
-    { destruct Hctx as (c & C1 & C2 & C3). exists (nc s). subst s2. cbn. repeat split; auto.
+    { destruct Hctx as (c & C1 & C2 & C3). exists (nc s). subst s2 s0. cbn. repeat split; auto.
       - intro Hr. destruct (C3 _ Hr) as (k & Ek & Hk). inversion Ek. lia.
       - apply (troot_fresh_mono s); auto. cbn. lia. }
     destruct (mfold_frame ts IH Hok s2 Hctx2) as (s3 & H3 & F3). cbn [bind]. rewrite H3. cbn [bind].
-    eexists. split; [reflexivity|].
-    destruct F3 as (B1 & B2 & B3 & B4 & B5 & B6 & B7 & B8 & B9). subst s2. cbn in *.
+    eexists. split; [reflexivity|]. rewrite Hoff2 in F3.
+    destruct F3 as (B1 & B2 & B3 & B4 & B5 & B6 & B7 & B8 & B9). subst s2 s0. cbn in *.
     unfold frame. cbn. rewrite secs_app, warns_app, rubs_app. cbn. rewrite !app_nil_r.
     repeat split; auto; lia.
   - cbn [no_titles] in Hok. cbn [render]. unfold nested_render_text.
-    assert (Hctx2 : nested_ctx (set_hoff s off)).
+    assert (Hctx2 : nested_ctx (set_hoff s (hoff s + off))).
     { destruct Hctx as (c & C1 & C2 & C3). exists c. cbn. repeat split; auto. }
     destruct (mfold_frame ts IH Hok _ Hctx2) as (s3 & H3 & F3). cbn [bind]. rewrite H3. cbn [bind].
     eexists. split; [reflexivity|].
@@ -689,26 +691,28 @@ Proof.
 Qed.
 
 (* the same for the body of a directive that does not ask for titles (e.g. an admonition):
-   its headings are rendered with heading offset 0 *)
+   the heading offset in force stays *)
 Theorem directive_headings_are_rubrics ts s : troot_fresh s -> forallb no_titles ts = true ->
   exists s', render (TDirective false ts) s = Ok s' /\
     lvl s' = lvl s /\ cur s' = cur s /\ hoff s' = hoff s /\ troot s' = troot s /\
     secs (log s') = secs (log s) /\ warns (log s') = warns (log s) /\
-    rubs (log s') = rubs (log s) ++ number (nh s) (flat_map (heading_levels 0) ts) /\
-    nh s' = nh s + length (flat_map (heading_levels 0) ts).
+    rubs (log s') = rubs (log s) ++ number (nh s) (flat_map (heading_levels (hoff s)) ts) /\
+    nh s' = nh s + length (flat_map (heading_levels (hoff s)) ts).
 Proof.
   intros Hfr Hok. cbn [render]. unfold nested_render_text.
-  set (s2 := set_hoff (set_cur (set_nc s (S (nc s))) (Cont (nc s))) 0).
+  set (s0 := set_cur (set_nc s (S (nc s))) (Cont (nc s))).
+  set (s2 := set_hoff s0 (hoff s0 + 0)).
+  assert (Hoff2 : hoff s2 = hoff s) by (subst s2 s0; cbn; lia).
   assert (Hctx2 : nested_ctx s2).
-  { exists (nc s). subst s2. cbn. repeat split; auto.
+  { exists (nc s). subst s2 s0. cbn. repeat split; auto.
     - intro Hr. destruct (Hfr _ Hr) as (k & Ek & Hk). inversion Ek. lia.
     - apply (troot_fresh_mono s); auto. cbn. lia. }
   assert (HF : Forall (fun t => no_titles t = true -> forall s, nested_ctx s ->
                  exists s', render t s = Ok s' /\ frame (heading_levels (hoff s) t) s s') ts).
   { apply Forall_forall. intros t _. apply render_frame. }
   destruct (mfold_frame ts HF Hok s2 Hctx2) as (s3 & H3 & F3). cbn [bind]. rewrite H3. cbn [bind].
-  eexists. split; [reflexivity|].
-  destruct F3 as (B1 & B2 & B3 & B4 & B5 & B6 & B7 & B8 & B9). subst s2. cbn in *.
+  eexists. split; [reflexivity|]. rewrite Hoff2 in F3.
+  destruct F3 as (B1 & B2 & B3 & B4 & B5 & B6 & B7 & B8 & B9). subst s2 s0. cbn in *.
   rewrite secs_app, warns_app, rubs_app. cbn. rewrite !app_nil_r.
   repeat split; auto.
 Qed.
